@@ -14,6 +14,7 @@ RULE = ('Typed predicates and expressions with the current message and a message
         'valuation grids; the replacements by evaluating the result with the variable bound to the message; the '
         'inverse law by snapshot equality; events `t as A {f}` against `t {f[@A:=this]}`. Non-trivial = >= 1 replaced '
         'occurrence at depth >= 2 (or a compound predicate for negate/join); distinct = shape x operation.')
+RULE_ADDED = ' Since the seeding rounds: replacements on atomic expressions; histories through but(); joins of related comparisons (same two operands, every pair of relational operators, same and mirrored order, negations) on valuations with the operands <, = and > each other.'
 ASSUMPTIONS = ['reference evaluator of DESIGN.md 4.1', 'aliases are never captured by a quantifier of the same name; '
                'bare @A at a primitive type and join of predicates with clashing shared references are not judged']
 FLOORS = {
@@ -134,6 +135,46 @@ def run(ctx):
                         # (stored types may legitimately be narrower than in a fresh node: structure and classes only)
                         viol('replace-atom', {'input': name, 'api': api, 'alias': alias, 'expected': want, 'observed': str(o[1]),
                                               'observed_class': type(o[1]).__name__}, feats)
+
+    # joins of *related* predicates: both compare the same two operands, with every pair of relational operators, in
+    # the same or in the mirrored operand order, judged on valuations on which the operands are <, = and > each other
+    RELOPS = ('=', '!=', '<', '<=', '>', '>=')
+    pairs = (('x', '0'), ('x', 'y'), ('x', '@A.x'), ('x + 1', 'y'), ('@A.x', '@A.y'))
+    grid_envs = [E.Env({'x': a, 'y': b}, {'A': {'x': c, 'y': d}})
+                 for a in (-1, 0, 1) for b in (-1, 0, 1) for c in (-1, 0, 1) for d in (0, 1)]
+    gi = 0
+    for l, r in pairs:
+        for op1 in RELOPS:
+            for op2 in RELOPS:
+                for mirrored in (False, True):
+                    gi += 1
+                    if not ctx.mine(gi):
+                        continue
+                    tp = f'{l} {op1} {r}'
+                    tq = f'{r} {op2} {l}' if mirrored else f'{l} {op2} {r}'
+                    op, oq = hplapi.outcome(PC.parse, tp), hplapi.outcome(PC.parse, tq)
+                    if op[0] != 'ok' or oq[0] != 'ok':
+                        continue
+                    feats = {'api:join', 'shape:related-comparisons'}
+                    for a, b, ta, tb in ((op[1], oq[1], tp, tq), (oq[1], op[1], tq, tp)):
+                        ctx.begin_case(feats)
+                        oj = hplapi.outcome(a.join, b)
+                        ctx.evaluation(f'joinrel|{l}|{r}|{op1}|{op2}|{mirrored}', True)
+                        ctx.count('related_joins_judged')
+                        if oj[0] != 'ok':
+                            viol('join-raises', {'p': ta, 'q': tb, 'error': type(oj[1]).__name__}, feats)
+                        else:
+                            _join_check(ctx, a, b, oj[1], grid_envs, ta, tb, feats, viol)
+                    # ... and the negation of each joined with the other (p and not p among them)
+                    on = hplapi.outcome(op[1].negate)
+                    if on[0] == 'ok' and getattr(on[1], 'is_predicate', False):
+                        ctx.begin_case(feats)
+                        oj = hplapi.outcome(on[1].join, oq[1])
+                        ctx.count('related_joins_judged')
+                        if oj[0] == 'ok':
+                            _join_check(ctx, on[1], oq[1], oj[1], grid_envs, f'not ({tp})', tq, feats, viol)
+                        else:
+                            viol('join-raises', {'p': f'not ({tp})', 'q': tq, 'error': type(oj[1]).__name__}, feats)
 
     for n in range(ctx.share(B['n'])):
         # ---------------- negate / join on predicates ------------------------------------------
